@@ -70,7 +70,7 @@ def refactorings_block() -> str:
             if len(parts) >= 2:
                 table[parts[0]] = (parts[1], parts[2].strip() if len(parts) > 2 else '')
     out = ['| refactoring | function(s) | kind of rewrite (author) | all 20 checks on it |', '|---|---|---|---|']
-    for d in sorted(glob.glob(f'{V}/refactors/C*-r*')):
+    for d in sorted(glob.glob(f'{V}/refactors/C*-[rst]*')):
         m = json.load(open(os.path.join(d, 'meta.json')))
         name = os.path.basename(d)
         st, which = table.get(name, ('?', ''))
